@@ -13,8 +13,9 @@ abbrev Pods := Tbl (String × String) Pod
 /-- a pod of the table that was bound by the plugin and has not finished -/
 def LiveBound (P : Pods) (q : Pod) : Prop := Tbl.get P q.id = some q ∧ q.finished = false ∧ q.handed ≠ []
 
-/-- some live bound pod has this key -/
-def LiveKey (P : Pods) (k : Key) : Prop := ∃ q, LiveBound P q ∧ keyOf q = k
+/-- some live bound pod has this key, or it is the key of an administrator's reservation: the keys whose records no
+    plugin action may change -/
+def LiveKey (P : Pods) (k : Key) : Prop := (∃ q, LiveBound P q ∧ keyOf q = k) ∨ k.isAdmin = true
 
 /-- a record that may appear.  (Since resync and Release check the whole key before acting, a record of another
     incarnation under a live bound pod's key is harmless: nothing is required of new records any more; the predicate
@@ -42,15 +43,17 @@ structure Frame (s s' : State) : Prop where
   pfault : s'.pfault = s.pfault
   clock : s'.clock = s.clock
   callsMono : s.calls ≤ s'.calls
+  admin : s'.admin = s.admin
 
 theorem Frame.refl (s : State) : Frame s s :=
-  ⟨rfl, rfl, rfl, rfl, rfl, rfl, rfl, rfl, rfl, rfl, rfl, rfl, rfl, rfl, Nat.le_refl _⟩
+  ⟨rfl, rfl, rfl, rfl, rfl, rfl, rfl, rfl, rfl, rfl, rfl, rfl, rfl, rfl, Nat.le_refl _, rfl⟩
 
 theorem Frame.trans {a b c : State} (h1 : Frame a b) (h2 : Frame b c) : Frame a c :=
   ⟨h2.pods.trans h1.pods, h2.vPods.trans h1.vPods, h2.events.trans h1.events, h2.nextUid.trans h1.nextUid,
    h2.pools.trans h1.pools, h2.nodes.trans h1.nodes, h2.apps.trans h1.apps, h2.vApps.trans h1.vApps,
    h2.poolObjs.trans h1.poolObjs, h2.vPoolObjs.trans h1.vPoolObjs, h2.provOn.trans h1.provOn,
-   h2.fault.trans h1.fault, h2.pfault.trans h1.pfault, h2.clock.trans h1.clock, Nat.le_trans h1.callsMono h2.callsMono⟩
+   h2.fault.trans h1.fault, h2.pfault.trans h1.pfault, h2.clock.trans h1.clock, Nat.le_trans h1.callsMono h2.callsMono,
+   h2.admin.trans h1.admin⟩
 
 /-- `s'` came from `s` by IPAM-level actions none of which can hurt a live bound pod of `P` -/
 structure Evolves (P : Pods) (s s' : State) : Prop where
@@ -100,7 +103,7 @@ theorem api_calls_le (s : State) : s.calls ≤ s.api.1.calls := by
   split <;> omega
 
 theorem api_frame (s : State) : Frame s s.api.1 := by
-  refine ⟨rfl, rfl, rfl, rfl, rfl, rfl, rfl, rfl, rfl, rfl, rfl, rfl, rfl, rfl, api_calls_le s⟩
+  refine ⟨rfl, rfl, rfl, rfl, rfl, rfl, rfl, rfl, rfl, rfl, rfl, rfl, rfl, rfl, api_calls_le s, rfl⟩
 
 @[simp] theorem api_alloc (s : State) : s.api.1.alloc = s.alloc := rfl
 @[simp] theorem api_free (s : State) : s.api.1.free = s.free := rfl
